@@ -452,7 +452,7 @@ example : samplerRun 99 4 (newSamp 2) [(some 1, 0), (some 0, 1)] = [(0, 0), (1, 
 
 /-- `Shuffle`: whatever swaps `r.Shuffle(n, swap)` asks for — `swap(i, j)` with `0 ≤ i, j < n`, and `n` is
 what `rShuffle` hands over: the generated `shuffleN (len a)` (= `len(a)`) — the result is a permutation
-(no index panic). Were the count `len(a) + 1`, the hypothesis would admit the index `len(a)` and the
+(no index panic). Were the count `len(a) + 1`, the hypothesis would allow the index `len(a)` and the
 statement would be false. -/
 theorem shuffle_perm (a : List α) (swaps : List (Int × Int))
     (h : ∀ p ∈ swaps, 0 ≤ p.1 ∧ p.1 < shuffleN a.length ∧ 0 ≤ p.2 ∧ p.2 < shuffleN a.length) :
